@@ -437,6 +437,13 @@ def b_chain(P, steps):
     kinds = []
     interfaces = []
     src = steps[0]
+    scaled = src.endswith("Scaled")
+    if scaled:
+        # the source shape is created at two thirds of its size and scaled up about the placement's origin afterwards, as a
+        # SHAPE: everything chained onto it must meet it where it is now
+        src = src[:-6]
+        P_full = P
+        P = Placement(P.R, P.s / 1.5, P.t, P.k, P.signs)
     if src == "Cylinder":
         sh = _cyl(P)
         kinds.append("cyl")
@@ -451,6 +458,9 @@ def b_chain(P, steps):
         kinds.append("ring")
     else:
         raise KeyError(src)
+    if scaled:
+        P = P_full
+        sh.scale(1.5, list(P.t))
     chop_round(sh)
     shapes.append(sh)
 
@@ -559,7 +569,7 @@ class ChainState:
     free outside (occupied after contract / fill until the chain moves on axially), fill needs 8 segments"""
 
     def __init__(self, src):
-        self.kind = {"ExtrudedRing": "ring", "ExtrudedRing6": "ring", "Cylinder": "cyl"}.get(src, "solid")
+        self.kind = {"ExtrudedRing": "ring", "ExtrudedRing6": "ring", "Cylinder": "cyl", "ExtrudedRingScaled": "ring", "CylinderScaled": "cyl"}.get(src, "solid")
         self.inner_free = True
         self.outer_free = True
         self.can_fill = src != "ExtrudedRing6"
@@ -587,7 +597,7 @@ class ChainState:
 
 def chain_valid(steps):
     """a chain the generator could have produced (used when failing chains are shrunk)"""
-    if not steps or steps[0] not in ("Cylinder", "Frustum", "Elbow", "ExtrudedRing", "ExtrudedRing6"):
+    if not steps or steps[0] not in ("Cylinder", "Frustum", "Elbow", "ExtrudedRing", "ExtrudedRing6", "CylinderScaled", "FrustumScaled", "ExtrudedRingScaled"):
         return False
     end, start = ChainState(steps[0]), ChainState(steps[0])
     for st in steps[1:]:
@@ -693,6 +703,8 @@ def catalogue(thorough=False):
         ["ExtrudedRing", "contract"], ["ExtrudedRing", "fill"],
         ["Cylinder", "frustum", "elbow", "hemisphere"], ["Cylinder", "expand", "expand", "ring_chain"],
         ["ExtrudedRing", "fill", "cylinder", "expand"], ["ExtrudedRing", "contract", "fill", "hemisphere"],
+        ["ExtrudedRingScaled", "ring_chain"], ["ExtrudedRingScaled", "ring_chain:start"], ["ExtrudedRingScaled", "contract"],
+        ["ExtrudedRingScaled", "expand"], ["CylinderScaled", "cylinder"], ["CylinderScaled", "expand"], ["FrustumScaled", "frustum:start"],
         ["Elbow", "elbow", "cylinder:start", "hemisphere"], ["Frustum", "hemisphere", "cylinder:start", "hemisphere:start"],
         ["ExtrudedRing6", "expand"], ["ExtrudedRing6", "contract", "ring_chain:start"],
     ]
